@@ -44,9 +44,12 @@ CLAIMED["C19"] = ("Backoff.tla model-checked by TLC with monitor MonC19 composed
                   "TLC checks normalize / initial period / doubling / clamp / jitter / reset rule against the property for all configurations (zero, sub-millisecond, base>max, near Duration::MAX) and all histories of attempt outcomes and lifetimes up to the bound; the real tokio client is driven through exported and random histories with virtual time, every inter-attempt wait is judged by MonC19 and compared with the wait the specification predicts.",
                   "tokio client only (threaded client shares advance_reconnect_period and the reset rule); 1 ms timer granularity; lifetimes in real time with a 10 ms tolerance", "7/C19")
 
+CLAIMED["C20"] = ("AwsBuilder.tla configurations enumerated by TLC with the property evaluated by monitor MonC20 (recorded defect rediscovered when switched on); the same configurations and seeded random ones put through the real gneiss-mqtt-aws builders; MonC20 folded by TLC over the recorded builder outputs",
+                  "Every configuration of the alphabet (client id absent / empty / given; connect and client options; 5 / 3.1.1; drain policy and retry limit set or not; mTLS, unsigned and signed custom authentication with raw and pre-encoded signatures, user name, password) is put through the real builders; MonC20 checks non-empty / preserved client id, preservation of every other option, the custom-auth user name (query string parsed, parameters decoded back, signature percent-encoded exactly once) and the 3.1.1 defaults rule; outputs are also compared with AwsBuilder.tla's.",
+                  "verif accessors repeat the trivial prelude of build_tokio/build_threaded; SigV4 and TLS out of scope", "7/C20")
+
 NOT_YET = {
  "C13": "check under construction (BytePump.tla and real-client runs); not claimed yet",
- "C20": "check under construction (AwsBuilder.tla); not claimed yet",
 }
 
 checks = []
@@ -66,7 +69,7 @@ for pid in sorted(CLAIMED):
 
 manifest = {
     "version": 1,
-    "setup_cmd": "cd /verif/harness && cargo build --release --offline",
+    "setup_cmd": "cd /verif/harness && cargo build --release --offline && cd /verif/harness-aws && cargo build --release --offline",
     "hooks": {
         "guard": "cargo feature `verif` (gneiss-mqtt)",
         "enable": "the harness depends on /repo/gneiss-mqtt by path with features [\"verif\", ...]; every check rebuilds it from /repo's working tree",
